@@ -69,21 +69,28 @@ def parseIOCons (tok : String) : Option IOCons :=
   | [c, r, j] => do
     let raw ← r.toNat?
     let jj ← j.toNat?
-    if ["E", "U", "P", "X", "B", "D", "T", "W"].contains c then some ⟨c, raw, jj⟩ else none
+    if ["E", "U", "P", "X", "B", "D", "T", "W", "V", "S", "Z"].contains c then some ⟨c, raw, jj⟩ else none
   | _ => none
 
 /-- line and class letter printed for one protocol construct of a literal -/
 def ioLine (fmt : Fmt) (sl : Nat) (doc : List Char) (ln : Int) (im : Bool) (c : IOCons) : Line × String :=
   let o := docObj sl doc ln im
   let i : Int := (c.raw : Int) - (dropped doc : Nat)
-  match c.tag with
-  | "B" => (report o .docstring (rstFieldLineno docutilsBase .bulletItem i), "P")
-  | "D" => (report o .docstring (rstFieldLineno docutilsBase .deflistItem i), "P")
-  | "T" => (report o .xref (classifierXrefOffset docutilsBase i), "X")
-  | "W" => (report o .docstring (typeWarningOffset (fieldStoredLineno docutilsBase fmt i)), "W")
-  | t => match parseCls t with
-    | some cls => (reportedLine fmt sl doc ln im ⟨cls, c.raw, c.j⟩, showCls cls)
-    | none => (.unknown, "?")
+  -- docutils' line structure: extra `splitlines()` boundaries before the block
+  let sh : Int := if fmt = .epytext then 0 else (extraBreaksBefore doc (c.raw - dropped doc) : Nat)
+  let r : Line × String := match c.tag with
+    | "B" => (report o .docstring (rstFieldLineno docutilsBase .bulletItem i), "P")
+    | "D" => (report o .docstring (rstFieldLineno docutilsBase .deflistItem i), "P")
+    | "T" => (report o .xref (classifierXrefOffset docutilsBase i), "X")
+    | "W" => (report o .docstring (typeWarningOffset (fieldStoredLineno docutilsBase fmt i)), "W")
+    -- V: c.j = number of further lines of the directive block
+    | "V" => (report o .xref (versionArgXrefOffset i c.j (cleandocLines doc).length 0), "X")
+    | "S" => (report o .xref (sectionTitleXrefOffset docutilsBase i c.j), "X")
+    | "Z" => (report o .xref tocXrefOffset, "X")
+    | t => match parseCls t with
+      | some cls => (reportedLine fmt sl doc ln im ⟨cls, c.raw, c.j⟩, showCls cls)
+      | none => (.unknown, "?")
+  if c.tag == "Z" then r else (shiftLine r.1 sh, r.2)
 
 /-- epytext: a fatal markup error leaves only the errors -/
 def ioReported (fmt : Fmt) (cs : List IOCons) : List IOCons :=
@@ -286,7 +293,9 @@ def handle (args : List String) : String :=
     -- what the parser itself stores: Field.lineno of every field-level construct, ParseError._linenum of every error
     match parseFmt fmt, Proto.decodeStr v, cs.mapM parseIOCons with
     | some fmt, some doc, some cs =>
+      -- index of the block in the line structure the parser uses (docutils: `splitlines()`)
       let idx (c : IOCons) : Int := (c.raw : Int) - (dropped doc : Nat)
+        + (if fmt == .epytext then (0 : Int) else ((extraBreaksBefore doc (c.raw - dropped doc) : Nat) : Int))
       let fatal := fmt == .epytext && cs.any (fun c => c.tag == "E")
       let fields := if fatal then [] else (cs.filter fun c => ["U", "P", "B", "D"].contains c.tag).map fun c =>
         toString (if c.tag == "B" then rstFieldLineno docutilsBase .bulletItem (idx c)
